@@ -320,7 +320,7 @@ for pid, items in (("C04", KTW), ("C10", KTW[:2] + KTW[4:])):
 
 # the two whole-function layers composed: CTR with the call run by the block function's own code (WholeCompose.v)
 WCM = "WholeCompose.v"
-CMP = [(WCM, "pctr128_composed"), (WCM, "pctr64_composed")]
+CMP = [(WCM, "pctr128_composed"), (WCM, "pctr64_composed"), ("WholeComposeM.v", "pctrM_composed")]
 for pid, items in (("C05", CMP),):
     if pid in PLAN:
-        add_imports(pid, WHI + ["ModelCipher", "ModelCtr", "ProofsApiCtr", "WholeProc", "WholeCtr", "WholeCtrModel", "WholeContracts", "WholeKeyTweak", "WholeCompose"]); PLAN[pid] += items
+        add_imports(pid, WHI + ["ModelCipher", "ModelCtr", "ProofsApiCtr", "WholeProc", "WholeCtr", "WholeCtrModel", "WholeContracts", "WholeKeyTweak", "WholeMantis", "WholeCompose", "WholeComposeM"]); PLAN[pid] += items
